@@ -7,6 +7,15 @@ ADJ_BOUNDS = ('design matrices: the fixed skeleton list of harness/adjcommon.h (
               'symbolic (unbounded reals). svd only on matrices constructed with a rational decomposition (Cayley factors).')
 ADJ_OUT = ('rounding (exact arithmetic, L1); the Golub-Reinsch iteration itself (contract stub, L2); design matrices outside the family (L3); '
            'covariance blocks with irrational Cholesky factors')
+NET_BOUNDS = ('networks: the generated family of harness/h_net.cpp/netgen.h -- levelling networks (4-6 points, loops, 1-3 clusters, stdev per observation / diagonal / banded width 1-2 cov-mat), '
+              '3D vector networks (3-4 points, block or neighbour correlations), observed coordinates, fixed / free / constrained points; coordinates and covariances exactly representable decimals; '
+              'every observed value = generating value + symbolic error in [-0.1 m, 0.1 m] (one unbounded error in C14); algorithms envelope, cholesky, gso (svd needs an exact decomposition and is covered at Adj level only)')
+NET_OUT = ('nonlinear observation types (distances, directions, angles, zenith angles) at network level; svd at network level; rounding; the printing part of GeneralParameters(); '
+           'networks outside the generated family')
+NET_ASSUME = ['exact real arithmetic stands for IEEE double', 'observed values are injected after parsing through Observation::set_value (the parser sees the generating values)',
+              'oracle: exact bordered-normal-equation solution in rational arithmetic (harness/netcommon.h), trusted', 'z3 4.8.12 decides branches (abs-term tests, huge-covariance tests, approximate-coordinate medians) and assertions']
+NET_ENTRY = ['GKFparser', 'LocalNetwork::revision_points/revision_observations/project_equations/prepareProjectEquations/vyrovnani_/null_space/remove_huge_abs_terms/refine_adjustment', 'LocalLinearization (linear types)',
+             'Cluster::activeCov/update', 'AdjEnvelope/AdjCholDec/AdjGSO via LocalNetwork', 'Acord2 (mode 2 of C06)']
 ADJ_ASSUME = ['exact real arithmetic stands for IEEE double (rounding not modelled)',
               'SVD::svd() body replaced by a contract stub installing exact factors; tail of svd() and set_inv_W() taken from the source, '
               'machine-epsilon bisection replaced by its value 2^-53',
@@ -16,18 +25,19 @@ ADJ_ASSUME = ['exact real arithmetic stands for IEEE double (rounding not modell
 PROPS = {
  'C01': {
    'e1': [{'harness': 'adj', 'entry_points': ['GNU_gama::Adj::x/r/rtr/defect', 'AdjEnvelope/AdjCholDec/AdjGSO/AdjSVD::unknowns/residuals/sum_of_squares/defect/lindep',
-                                               'Homogenization::run', 'Envelope::cholDec/solve', 'ICGS::icgs1/icgs2', 'SVD::solve/min_subset_x']}],
-   'must_reach': ['C01', 'base'],
+                                               'Homogenization::run', 'Envelope::cholDec/solve', 'ICGS::icgs1/icgs2', 'SVD::solve/min_subset_x']},
+          {'harness': 'net', 'entry_points': NET_ENTRY}],
+   'must_reach': ['C01', 'base', 'net-compare'],
    'technique': 'symbolic execution of the real solver sources (scalar substitution double->term), z3 decides branches and optimality identities for every right-hand side',
-   'bounds': ADJ_BOUNDS, 'outside': ADJ_OUT + '; the LocalNetwork entry point is covered by the network harness', 'assumptions': ADJ_ASSUME},
+   'bounds': ADJ_BOUNDS + ' Network level: ' + NET_BOUNDS, 'outside': ADJ_OUT + '; ' + NET_OUT, 'assumptions': ADJ_ASSUME + NET_ASSUME},
  'C02': {
-   'e1': [{'harness': 'adj', 'entry_points': ['GNU_gama::Adj with set_algorithm(envelope|cholesky|gso|svd)']}],
-   'must_reach': ['C02'],
+   'e1': [{'harness': 'adj', 'entry_points': ['GNU_gama::Adj with set_algorithm(envelope|cholesky|gso|svd)']}, {'harness': 'net', 'entry_points': NET_ENTRY}],
+   'must_reach': ['C02', 'net-c02'],
    'technique': 'symbolic execution of all four algorithms on shared symbols; equality of results as solver-checked polynomial identities',
    'bounds': ADJ_BOUNDS, 'outside': ADJ_OUT, 'assumptions': ADJ_ASSUME},
  'C03': {
-   'e1': [{'harness': 'adj', 'entry_points': ['Adj::q_xx/q_bb', 'AdjBase::q_xx/q_bb for the four solvers', 'Envelope::inverse', 'AdjEnvelope::q0_xx/T_row', 'ICGS::rowdot', 'SVD::q_xx/q_bb']}],
-   'must_reach': ['C03', 'base'],
+   'e1': [{'harness': 'adj', 'entry_points': ['Adj::q_xx/q_bb', 'AdjBase::q_xx/q_bb for the four solvers', 'Envelope::inverse', 'AdjEnvelope::q0_xx/T_row', 'ICGS::rowdot', 'SVD::q_xx/q_bb']}, {'harness': 'net', 'entry_points': NET_ENTRY + ['LocalNetwork::qxx/qbb']}],
+   'must_reach': ['C03', 'base', 'net-compare'],
    'technique': 'symbolic execution; generalised-inverse identities against N=A\'PA computed by an exact rational oracle',
    'bounds': ADJ_BOUNDS, 'outside': ADJ_OUT + '; positive semi-definiteness is implied by QNQ=Q with N psd and not queried separately', 'assumptions': ADJ_ASSUME},
  'C04': {
@@ -39,4 +49,25 @@ PROPS = {
              'first call from the full operation table (17-19 operations incl. all index pairs listed in harness/h_hist.cpp), later calls from the reduced table (11-13 operations); two regularisation subsets + all; right-hand side symbolic',
    'outside': 'longer histories at object level (the cache step itself is covered for histories of any length by the CBMC kernel mtf_step); LocalNetwork histories; ' + ADJ_OUT,
    'assumptions': ADJ_ASSUME},
+
+ 'C06': {'e1': [{'harness': 'net', 'entry_points': NET_ENTRY}], 'must_reach': ['net-c06'],
+   'technique': 'symbolic execution of parser+network+solver on error-free observations; adjusted = generating coordinates and zero residuals as solver-checked identities, approximate coordinates symbolic (perturbed) or computed by the real Acord2',
+   'bounds': NET_BOUNDS + '; approximate coordinates: exact / perturbed by symbolic offsets in [-0.5 m, 0.5 m] / omitted for free points', 'outside': NET_OUT + '; polar, traverse, intersection strategies of Acord2 (need nonlinear types)', 'assumptions': NET_ASSUME},
+ 'C07': {'e1': [{'harness': 'net', 'entry_points': NET_ENTRY}], 'must_reach': ['net-c07'],
+   'technique': 'two networks built from the same symbols inside one symbolic exploration (translation by a symbolic vector, reversed order, renamed non-ASCII ids, swapped ends); results compared as terms by the solver',
+   'bounds': NET_BOUNDS, 'outside': NET_OUT + '; circle rotation, deg<->gon and axes/handedness variants (need angular types)', 'assumptions': NET_ASSUME},
+ 'C08': {'e1': [{'harness': 'net', 'entry_points': NET_ENTRY}], 'must_reach': ['net-c08'],
+   'technique': 'symbolic execution of the same free network under 4-5 constraint sets; invariants compared across runs and G_S\'x_S = 0 against the exact null space',
+   'bounds': 'free levelling networks (defect 1, 5 points, 3 covariance styles) and free 3D vector networks (defect 3, 4 points), 4-5 constraint sets each, 3 algorithms, symbolic observation errors', 'outside': NET_OUT + '; rotational/scale defects (2D distance/direction networks)', 'assumptions': NET_ASSUME},
+ 'C10': {'e1': [{'harness': 'net', 'entry_points': NET_ENTRY + ['GKFparser::finish_cov and friends']}, {'harness': 'adj', 'entry_points': ['Adj::choldec/forwardSubstitution', 'BlockDiagonal::cholDec', 'Homogenization::run']}],
+   'must_reach': ['net-c10', 'net-c10p', 'net-c10r', 'C01'],
+   'technique': 'symbolic execution: cov-mat vs per-observation stdev, every subset (<=3) of passive observations of a banded cluster against the exact sub-matrix oracle, dense vs sparse weighting paths compared through the algorithms; malformed matrices through the real parser',
+   'bounds': NET_BOUNDS + '; clusters of 7 height differences with band 1..3, passive subsets of size <= 3 (quick: a quarter of them per algorithm); malformed: wrong dim, negative, zero variance, indefinite', 'outside': NET_OUT + '; fully symbolic covariance entries', 'assumptions': NET_ASSUME + ADJ_ASSUME},
+ 'C14': {'e1': [{'harness': 'net', 'entry_points': NET_ENTRY + ['LocalNetwork::test_abs_term', 'TestAbsTermVisitor']}], 'must_reach': ['net-c14-kept', 'net-c14-rejected'],
+   'technique': 'symbolic execution with one unbounded symbolic gross error: the solver splits the tol-abs threshold into the kept and the rejected path, each compared with the exact oracle with/without that observation',
+   'bounds': NET_BOUNDS + '; fixed-datum levelling and vector networks, every third (quick) / every (thorough) observation as target', 'outside': NET_OUT + '; text sections of the report; structural removals other than those arising in C20', 'assumptions': NET_ASSUME},
+ 'C20': {'e1': [{'harness': 'net', 'entry_points': NET_ENTRY + ['LocalNetwork::null_space', 'AdjBase::lindep']}, {'harness': 'adj', 'entry_points': ['AdjBase::lindep/defect for the four solvers', 'BadRegularization paths']}],
+   'must_reach': ['net-c20', 'base'],
+   'technique': 'symbolic execution of ill-posed networks under all algorithms in one exploration (removed points, refusal, results compared); dependent-unknown flags checked against exact rank computations',
+   'bounds': '7 ill-posed levelling/vector networks (no datum, two components with one datum, dangling part, all fixed) x 3 algorithms; Adj level: ' + ADJ_BOUNDS, 'outside': NET_OUT, 'assumptions': NET_ASSUME + ADJ_ASSUME},
 }
